@@ -437,7 +437,7 @@ pub fn run(seed: u64, tier: &str, shard: usize, nshards: usize, collide: bool) -
     let prop = if collide { "C17" } else { "C02" };
     let mut res = ShardResult::new(prop, seed);
     let rt = tokio::runtime::Builder::new_multi_thread().worker_threads(2).enable_all().build().unwrap();
-    let total = if tier == "thorough" { 12_000 } else { 1_600 };
+    let total = if tier == "miri" { 48 } else if tier == "thorough" { 60_000 } else { 8_000 };
     let mut rng = Rng::derive(seed, 0xC02_0000 + shard as u64);
     for i in 0..total / nshards.max(1) {
         let algo = ALGOS[i % ALGOS.len()];
@@ -461,8 +461,8 @@ pub fn run(seed: u64, tier: &str, shard: usize, nshards: usize, collide: bool) -
             algo: acfg,
             capacity: 2 + rng.usize(8),
             shards,
-            threads: 2 + rng.usize(if tier == "thorough" { 7 } else { 3 }),
-            ops: 20 + rng.usize(41),
+            threads: 2 + rng.usize(if tier == "miri" { 2 } else if tier == "thorough" { 7 } else { 3 }),
+            ops: if tier == "miri" { 6 + rng.usize(8) } else { 20 + rng.usize(41) },
             keys,
             div,
             with_fetch: rng.chance(2, 3),
